@@ -233,7 +233,10 @@ def slow_source_jobs(rng, tier, mk_terms, add):
             nt_, cs_ = rng.choice([3, 4, 6]), rng.choice([("cs", 1), ("cs", 2), ("cs", 3), ("csmin", 2), None])
         p = gen_prog(rng, src=src, shape=sh, n=n_, nt=nt_, cs=cs_)
         p["term"] = mk_terms[i % len(mk_terms)](rng, src, shape_of(p))
-        add(norm(p), "free", sleep_us=rng.choice([100, 300]) if src in ("iter", "iterx") else 0)
+        # every third job also holds the source inside its first next() until the other workers have
+        # begun (reserved their chunks and queued): the "reserved but not yet pulled" state on purpose
+        hold = (nt_ if i % 3 == 0 else 0) if src in ("iter", "iterx") else 0
+        add(norm(p), "free", sleep_us=rng.choice([100, 300]) if src in ("iter", "iterx") else 0, hold_workers=hold)
 
 
 def big_jobs(rng, tier, mk_terms, add):
